@@ -139,7 +139,7 @@ func dedup(s []string) []string {
 }
 
 func c01Run(c *Ctx) {
-	p := genProgram(c.R, 12)
+	p := genProgramX(c.R, 12, true)
 	if len(p.Nodes) == 0 {
 		c.Skip("empty program")
 		return
